@@ -67,7 +67,7 @@ type Exec struct {
 
 	usedContracts map[string]bool
 	coverSeen     map[string]int
-	trackedChans  map[string]bool // channel terms made for a local variable listed in the contract's tokens clause
+	trackedChans  map[string]types.Type // channel terms made for a local variable listed in the contract's tokens clause
 	usedRegex     map[string]bool
 	blocking      []blockingOp
 	spawned       []*ssa.Function
@@ -670,9 +670,9 @@ func (ex *Exec) step(st *State, fr *Frame, instr ssa.Instruction) {
 						for _, tn := range ex.contract.tokens {
 							if al.Comment == tn {
 								if ex.trackedChans == nil {
-									ex.trackedChans = map[string]bool{}
+									ex.trackedChans = map[string]types.Type{}
 								}
-								ex.trackedChans[r] = true
+								ex.trackedChans[r] = in.Type()
 							}
 						}
 					}
